@@ -7,6 +7,11 @@
  *     q <type> <path> <iface> <member> <error> <dest> <sender> <reply_serial> <nfds> <requested> <eavesdropping> <receiver> <sender conn> <own name>
  *   -> S <raw><opt> R <raw><opt> O <raw><opt> L <len raw> <len opt>
  *
+ *   cfg <path of the top-level configuration file> ; u <uid> ; ... ; o <name hex> ; ...
+ *   -> ERR <error name>   |   OK a=<bus_policy_allow_unix_user per uid> o=<bus_policy_check_can_own (default rules) per name>
+ *      the file (with its <include>/<includedir> tree) is loaded by bus_config_load, the policy taken with
+ *      bus_config_parser_steal_policy: the real parser, include_file/include_dir and bus_policy_merge
+ *
  * The rules are built with bus_policy_rule_new and put into a BusClientPolicy
  * with bus_client_policy_append_rule; decisions are taken with
  * bus_client_policy_check_can_send / _can_receive / _can_own before and after
@@ -17,6 +22,7 @@
 #include <dbus/dbus-message-internal.h>
 #include <dbus/dbus-list.h>
 #include "policy.h"
+#include "config-parser.h"
 
 #define MAXTOK 4096
 
@@ -140,6 +146,33 @@ static void do_dec (char **tok, int ntok)
   for (i = 0; i < nrules; i++) bus_policy_rule_unref (rules[i]);
 }
 
+static void do_cfg (char **tok, int ntok)
+{
+  DBusString path; DBusError err = DBUS_ERROR_INIT; BusConfigParser *parser; BusPolicy *pol; int i;
+  char a[256], o[256]; int na = 0, no = 0;
+  if (ntok < 2) { printf ("?bad-cfg\n"); return; }
+  _dbus_string_init_const (&path, tok[1]);
+  parser = bus_config_load (&path, TRUE, NULL, &err);
+  if (parser == NULL) { printf ("ERR %s\n", err.name); dbus_error_free (&err); return; }
+  pol = bus_config_parser_steal_policy (parser);
+  for (i = 2; i + 1 < ntok; i++)
+    {
+      if (strcmp (tok[i], "u") == 0 && na < 255)
+        a[na++] = bus_policy_allow_unix_user (pol, strtoul (tok[i + 1], NULL, 10)) ? '1' : '0';
+      else if (strcmp (tok[i], "o") == 0 && no < 255)
+        {
+          int n; unsigned char *b = unhex (tok[i + 1], &n); DBusString s;
+          _dbus_string_init_const_len (&s, (const char *) b, n);
+          o[no++] = bus_policy_check_can_own (pol, &s) ? '1' : '0';
+          free (b);
+        }
+    }
+  a[na] = 0; o[no] = 0;
+  printf ("OK a=%s o=%s\n", a, o);
+  bus_policy_unref (pol);
+  bus_config_parser_unref (parser);
+}
+
 int main (void)
 {
   static char line[1 << 20];
@@ -150,6 +183,7 @@ int main (void)
       while (p != NULL && n < MAXTOK) { tok[n++] = p; p = strtok (NULL, " \n"); }
       if (n == 0) { printf ("\n"); continue; }
       if (strcmp (tok[0], "dec") == 0) do_dec (tok, n);
+      else if (strcmp (tok[0], "cfg") == 0) do_cfg (tok, n);
       else printf ("?unknown-command\n");
       fflush (stdout);
     }
